@@ -195,49 +195,62 @@ def ob_anomaly(name, T, N, cycle, anomalies_flag, windowed):
         hyps += [lat[N - 1].v > w["lat_max"].v]
     Tw, Nw = (T - 1, N - 1) if windowed else (T, N)
 
-    def harness(ex):
+    def view(cd, Tw_, Nw_, tag):
         out = []
+        O = np.asarray(cd.observable(), dtype=object)
+        if O.shape != (Tw_, Nw_):
+            return [(tag + "observable-shape", True)]
+        an = np.asarray(cd.anomaly(), dtype=object)
+        if an.shape != O.shape:
+            return [(tag + "anomaly-shape-differs-from-observable", True)]
+        if anomalies_flag:
+            for i in range(Tw_):
+                for j in range(Nw_):
+                    out.append((tag + "anomaly-is-the-windowed-observable", ne(pe._num(an[i, j]), pe._num(O[i, j]))))
+            return out
+        pm = np.asarray(cd.phase_mean(), dtype=object)
+        if pm.shape != (cycle, Nw_):
+            return [(tag + "phase_mean-shape", True)]
+        for ph in range(cycle):
+            idx = list(range(ph, Tw_, cycle))
+            for j in range(Nw_):
+                if idx:
+                    out.append((tag + "anomaly-zero-mean-per-phase", ne(sx.total(pe._num(an[i, j]) for i in idx), 0)))
+                    for i in idx:
+                        out.append((tag + "anomaly+phase_mean=observable", ne(sx.add(pe._num(an[i, j]), pe._num(pm[ph, j])), pe._num(O[i, j]))))
+        pi = np.asarray(cd.phase_indices())
+        years = Tw_ // cycle
+        if pi.shape != (cycle, years):
+            out.append((tag + "phase_indices-shape", True))
+        else:
+            for ph in range(cycle):
+                for yk in range(years):
+                    out.append((tag + "phase_indices", int(pi[ph, yk]) != ph + yk * cycle))
+        return out
+
+    def harness(ex):
         with pe.patched(mods()):
             grid = GeoGrid(t, lat, lon, 3)
-            cd = ClimateData(obs, grid, time_cycle=cycle, anomalies=anomalies_flag, window=w, silence_level=3)
-            O = np.asarray(cd.observable(), dtype=object)
-            if O.shape != (Tw, Nw):
-                return [("observable-shape", True)]
-            an = np.asarray(cd.anomaly(), dtype=object)
-            if an.shape != O.shape:
-                return [("anomaly-shape-differs-from-observable", True)]
-            if anomalies_flag:
-                for i in range(Tw):
-                    for j in range(Nw):
-                        out.append(("anomaly-is-the-windowed-observable", ne(pe._num(an[i, j]), pe._num(O[i, j]))))
+            if windowed == "sequence":
+                # global view, then the window, then the global view again: every derived series follows each change
+                cd = ClimateData(obs, grid, time_cycle=cycle, anomalies=anomalies_flag, window=None, silence_level=3)
+                out = view(cd, T, N, "global view: ")
+                cd.set_window(w)
+                out += view(cd, Tw, Nw, "after set_window: ")
+                cd.set_global_window()
+                out += view(cd, T, N, "after set_global_window: ")
                 return out
-            pm = np.asarray(cd.phase_mean(), dtype=object)
-            if pm.shape != (cycle, Nw):
-                return [("phase_mean-shape", True)]
-            for ph in range(cycle):
-                idx = list(range(ph, Tw, cycle))
-                for j in range(Nw):
-                    if idx:
-                        out.append(("anomaly-zero-mean-per-phase", ne(sx.total(pe._num(an[i, j]) for i in idx), 0)))
-                        for i in idx:
-                            out.append(("anomaly+phase_mean=observable", ne(sx.add(pe._num(an[i, j]), pe._num(pm[ph, j])), pe._num(O[i, j]))))
-            pi = np.asarray(cd.phase_indices())
-            years = Tw // cycle
-            if pi.shape != (cycle, years):
-                out.append(("phase_indices-shape", True))
-            else:
-                for ph in range(cycle):
-                    for yk in range(years):
-                        out.append(("phase_indices", int(pi[ph, yk]) != ph + yk * cycle))
-        return out
+            cd = ClimateData(obs, grid, time_cycle=cycle, anomalies=anomalies_flag, window=w, silence_level=3)
+            return view(cd, Tw, Nw, "")
 
     def wit(m, lab):
         ev = lambda x: sx.model_value(m, x.v)
         return {"kind": "anomaly", "t": [ev(x) for x in t], "lat": [ev(x) for x in lat], "lon": [ev(x) for x in lon],
                 "obs": [[ev(obs[i, j]) for j in range(N)] for i in range(T)], "cycle": cycle, "anomalies": anomalies_flag,
-                "window": {k: ev(v) for k, v in w.items()} if w else None, "label": lab}
+                "window": {k: ev(v) for k, v in w.items()} if w else None, "label": lab, "sequence": windowed == "sequence"}
     return finish(name, hyps, harness, funcs,
-                  f"T={T}, N={N}, cycle={cycle}, anomalies={anomalies_flag}, {'window dropping the last sample and node' if windowed else 'global window'}",
+                  f"T={T}, N={N}, cycle={cycle}, anomalies={anomalies_flag}, " + ("global view -> window dropping the last sample and node -> global view"
+                                                                                        if windowed == "sequence" else ("window dropping the last sample and node" if windowed else "global window")),
                   "C13|ClimateData|anomaly", wit, max_paths=400)
 
 
@@ -288,6 +301,9 @@ def obligations(tier):
                                          anomalies_flag=flag, windowed=False), 1200))
             obs.append((ob_anomaly, dict(name=f"C13|ClimateData|anomaly|T={T},cycle={cycle},anomalies={flag}|windowed", T=T, N=2, cycle=cycle,
                                          anomalies_flag=flag, windowed=True), 1200))
+            if (T, cycle) in ((4, 2), (5, 3), (7, 3)):
+                obs.append((ob_anomaly, dict(name=f"C13|ClimateData|anomaly|T={T},cycle={cycle},anomalies={flag}|global-window-global", T=T, N=2,
+                                             cycle=cycle, anomalies_flag=flag, windowed="sequence"), 1800))
     return obs
 
 
@@ -337,22 +353,37 @@ def replay(w):
         return bool(probs), f"t={t.tolist()} lat={lat.tolist()} lon={lon.tolist()} windows={wins}: " + "; ".join(probs[:3])
     if w["kind"] == "anomaly":
         win = {k: float(v) for k, v in f(w["window"]).items()} if w.get("window") else None
-        cd = ClimateData(obs, grid, time_cycle=w["cycle"], anomalies=w["anomalies"], window=win, silence_level=3)
-        O = cd.observable()
-        an = cd.anomaly()
-        probs = []
-        if an.shape != O.shape:
-            probs.append(f"anomaly() has shape {an.shape}, observable() {O.shape}")
-        elif w["anomalies"]:
-            if not np.allclose(an, O):
-                probs.append("anomaly() differs from the windowed observable although anomalies=True")
+
+        def view_probs(cd, tag):
+            O = cd.observable()
+            an = cd.anomaly()
+            probs = []
+            if an.shape != O.shape:
+                probs.append(f"{tag}anomaly() has shape {an.shape}, observable() {O.shape}")
+            elif w["anomalies"]:
+                if not np.allclose(an, O):
+                    probs.append(f"{tag}anomaly() differs from the windowed observable although anomalies=True")
+            else:
+                pm = cd.phase_mean()
+                c = w["cycle"]
+                if pm.shape != (c, O.shape[1]):
+                    probs.append(f"{tag}phase_mean() has shape {pm.shape} for an observable of shape {O.shape}")
+                    return probs
+                for ph in range(c):
+                    if len(range(ph, O.shape[0], c)) and not np.allclose(an[ph::c].sum(axis=0), 0, atol=1e-9):
+                        probs.append(f"{tag}phase {ph}: anomaly mean not zero")
+                    if not np.allclose(an[ph::c] + pm[ph], O[ph::c]):
+                        probs.append(f"{tag}phase {ph}: anomaly + phase mean != observable")
+            return probs
+        if w.get("sequence"):
+            cd = ClimateData(obs, grid, time_cycle=w["cycle"], anomalies=w["anomalies"], window=None, silence_level=3)
+            probs = view_probs(cd, "global view: ")
+            cd.set_window(win)
+            probs += view_probs(cd, "after set_window: ")
+            cd.set_global_window()
+            probs += view_probs(cd, "after set_global_window: ")
         else:
-            pm = cd.phase_mean()
-            c = w["cycle"]
-            for ph in range(c):
-                if len(range(ph, O.shape[0], c)) and not np.allclose(an[ph::c].sum(axis=0), 0, atol=1e-9):
-                    probs.append(f"phase {ph}: anomaly mean not zero")
-                if not np.allclose(an[ph::c] + pm[ph], O[ph::c]):
-                    probs.append(f"phase {ph}: anomaly + phase mean != observable")
+            cd = ClimateData(obs, grid, time_cycle=w["cycle"], anomalies=w["anomalies"], window=win, silence_level=3)
+            probs = view_probs(cd, "")
         return bool(probs), f"ClimateData(T={len(t)}, N={len(lat)}, cycle={w['cycle']}, anomalies={w['anomalies']}, window={win}): " + "; ".join(probs[:3])
     return False, "unknown witness kind"
